@@ -193,6 +193,7 @@ class Contract:
     eprops = ("C03",)
     vprops = ("C05",)
     tprops = ("C06",)
+    fprops = ()             # "F." clauses: frame / global-state clauses
     guard_relevant = True
     inline = False
 
@@ -214,6 +215,10 @@ class Contract:
         return None
 
     def post(self, c, r, *args, **kw):
+        return {}
+
+    def post_exc(self, c, e, *args, **kw):
+        """Clauses that must hold when the function exits by raising `e`."""
         return {}
 
     def key(self, c, *args, **kw):
